@@ -282,6 +282,9 @@ theorem step_inv (s s' : St) (e : Ev) (h : step s e = .ok s') (hi : PInv s) : PI
     simp only [step] at h
     injection h with h; subst h
     keep_inv hi
+  | bump id =>
+    simp only [step] at h
+    (repeat' split at h) <;> first | (cases h; done) | (injection h with h; subst h; keep_inv hi)
   | stampAt p e q =>
     simp only [step] at h
     split at h
